@@ -27,18 +27,20 @@ type keyCase struct {
 	Register   bool   `json:"joins_with_0x0100"`
 	CloseMode  string `json:"close"`
 	Procs      int    `json:"gomaxprocs,omitempty"`
+	LeaveSend  bool   `json:"leave_callback_sends_a_command,omitempty"` // the leave callback asks the service about the key that just left
 }
 
 func genKeyCase(t *rapid.T) keyCase {
 	return keyCase{Mode: rapid.SampledFrom([]string{"auth_only", "strip"}).Draw(t, "mode"), V2019: rapid.Bool().Draw(t, "v2019"),
 		Heartbeats: rapid.IntRange(0, 3).Draw(t, "heartbeats"), Register: rapid.Bool().Draw(t, "register"),
-		CloseMode: rapid.SampledFrom([]string{"fin", "rst"}).Draw(t, "close"), Procs: rapid.SampledFrom([]int{0, 1, 4}).Draw(t, "procs")}
+		CloseMode: rapid.SampledFrom([]string{"fin", "rst"}).Draw(t, "close"), Procs: rapid.SampledFrom([]int{0, 1, 4}).Draw(t, "procs"),
+		LeaveSend: rapid.Bool().Draw(t, "leave_send")}
 }
 
 func checkKeyCase(c keyCase, _ *kit.Collector) kit.Result {
 	res := kit.Result{}
 	const prefix = "1390000"
-	sc := Scenario{KeyMode: c.Mode, KeyPrefix: "", Procs: c.Procs}
+	sc := Scenario{KeyMode: c.Mode, KeyPrefix: "", Procs: c.Procs, OnLeaveSend: c.LeaveSend}
 	var aID, uID identity
 	var aKey, uKey string
 	if c.Mode == "strip" {
@@ -171,6 +173,18 @@ func checkKeyCase(c keyCase, _ *kit.Collector) kit.Result {
 			return res
 		}
 	}
+	returned := map[int]int{}
+	for _, e := range h.Events {
+		if e.Kind == "call_result" {
+			returned[e.Call]++
+		}
+	}
+	for _, id := range []int{2, 4, 6, 8, 10, 12, 14, 16, 18} {
+		if (id != 2 || c.Mode == "auth_only") && returned[id] != 1 {
+			res.Err = fmt.Errorf("SOFT %s: command %d returned %d times (every call returns exactly once: with the response, or not-exist at once)", what, id, returned[id])
+			return res
+		}
+	}
 	for _, e := range h.Events {
 		if e.Kind != "call_result" {
 			continue
@@ -214,7 +228,10 @@ func checkKeyCase(c keyCase, _ *kit.Collector) kit.Result {
 		res.Err = fmt.Errorf("SOFT %s: leave announcements: %d for key %q (want 2) and %d for key %q (want 1)", what, leave[aKey], aKey, leave[uKey], uKey)
 		return res
 	}
-	res.Labels = []string{"key_func_" + c.Mode, fmt.Sprintf("heartbeats_before_join_%d", pre)}
+	if c.LeaveSend {
+		res.Labels = append(res.Labels, "leave_callback_sends_a_command")
+	}
+	res.Labels = append(res.Labels, "key_func_"+c.Mode, fmt.Sprintf("heartbeats_before_join_%d", pre))
 	res.NT = true
 	return res
 }
